@@ -896,6 +896,1033 @@ def fuzz_spec(fseed, dtype=np.float64):
     return dict(fn=fn, args=args, inplace=set(inplace), skel=skel, ep=f"tensorly:fuzz:{algo}", algo=algo)
 
 
+# ============================================================================ static extraction of aliasing skeletons (corr:C15-static)
+# Python ast -> pcmd term of Model/Effects.v.  Per anchored function: how every local name is bound (fresh result, copy,
+# view, list copy, wrapper, element of a container, alias), every statement that assigns into / calls an in-place
+# method on a name, data-dependent `if`s as choices, loops over modes unrolled (NMODES), other loops twice, callee
+# bodies of the anchored functions inlined; then a backward slice keeps only what can influence a write.
+import ast
+import os
+
+NMODES = 3
+MAXDEPTH = 3
+
+
+class _Sentinel:
+    def __init__(self, name): self.name = name
+    def __repr__(self): return self.name
+    def __bool__(self): return True
+    def __eq__(self, other): return other is self
+    def __ne__(self, other): return other is not self
+    def __hash__(self): return id(self)
+
+
+NONNULL = _Sentinel("NONNULL")      # some object that is not None (an array, a list, a callable, a truthy option)
+USER = _Sentinel("USER")            # a user-supplied initialisation (tuple / list / wrapper object, not a string)
+UNKNOWN = _Sentinel("UNKNOWN")      # leave the parameter free
+VIEW_FUNCS = {"transpose", "reshape", "tensor_to_vec", "unfold", "moveaxis", "squeeze", "ravel", "asarray", "to_numpy", "flip",
+              "partial_unfold", "partial_tensor_to_vec", "fold", "vec_to_tensor", "partial_fold", "matricize", "swapaxes", "diag", "real", "imag", "T"}
+COPY_FUNCS = {"copy"}
+LISTCOPY_FUNCS = {"list", "tuple", "sorted", "reversed"}
+WRAPPERS = {"CPTensor", "TuckerTensor", "Parafac2Tensor", "TTTensor", "TRTensor", "TTMatrix"}
+ATTR_INDEX = {"weights": 0, "core": 0, "factors": 1, "projections": 2}
+LIST_STORE_METHODS = {"append", "insert", "extend", "add"}
+LIST_WRITE_METHODS = {"remove", "clear", "sort", "reverse", "fill", "resize", "put", "itemset", "partition", "setfield", "update", "discard"}
+INPLACE_CALLS = {"index_update", "copyto", "fill_diagonal", "put", "place", "putmask"}
+
+
+class Scope:
+    def __init__(self, fdef, consts, depth, local_funcs=None):
+        self.vars, self.consts, self.depth, self.fname = {}, dict(consts), depth, fdef.name
+        a = fdef.args
+        self.params = [x.arg for x in a.posonlyargs + a.args + a.kwonlyargs]
+        for p in self.params:
+            self.var(p)
+        self.null = self.var("<null>")
+        self.ret = self.var("<ret>")
+        self.local_funcs = dict(local_funcs or {})
+        self.ntmp = 0
+
+    def var(self, name):
+        if name not in self.vars:
+            self.vars[name] = len(self.vars)
+        return self.vars[name]
+
+    def tmp(self):
+        self.ntmp += 1
+        return self.var(f"<t{self.ntmp}>")
+
+
+SKIP = ("seq", ())
+
+
+def seqn(*nodes):
+    out = []
+    for n in nodes:
+        if n[0] == "seq":
+            out.extend(n[1])
+        else:
+            out.append(n)
+    return ("seq", tuple(out))
+
+
+def prim(*c):
+    return ("prim", c)
+
+
+# callee summaries used when an anchored solver is CALLED from another anchored function (its own body is analysed as a
+# separate static case with exactly these flags): (parameter positions written in place, what the result may alias)
+SUMMARIES = {"hals_nnls": ((2,), (2,)), "fista": ((), (2,)), "active_set_nnls": ((), (2,)), "admm": ((), (2, 3))}
+
+
+class Extractor:
+    def __init__(self, repo, repeat=2):
+        self.repeat = repeat
+        self.funcs, self.unresolved, self.stats = {}, [], {}
+        root = os.path.join(repo, "tensorly")
+        for dp, dn, fn in os.walk(root):
+            if any(x in dp for x in ("tests", "datasets", "plugins", "backend")):
+                continue
+            for f in fn:
+                if not f.endswith(".py") or f.startswith("test_"):
+                    continue
+                try:
+                    tree = ast.parse(open(os.path.join(dp, f)).read())
+                except Exception:
+                    continue
+                for node in tree.body:
+                    if isinstance(node, ast.FunctionDef):
+                        self.funcs.setdefault(node.name, node)
+                    elif isinstance(node, ast.ClassDef):
+                        for m in node.body:
+                            if isinstance(m, ast.FunctionDef):
+                                self.funcs.setdefault(f"{node.name}.{m.name}", m)
+        self.scope_counter = 0
+
+    # ------------------------------------------------------------------ helpers
+    def note(self, what):
+        self.unresolved.append(what)
+
+    def const_of(self, sc, node):
+        """('c', value) if the expression is a known constant, else None"""
+        if isinstance(node, ast.Constant):
+            return ("c", node.value)
+        if isinstance(node, ast.Name) and node.id in sc.consts:
+            return ("c", sc.consts[node.id])
+        if isinstance(node, ast.UnaryOp) and isinstance(node.op, ast.USub):
+            c = self.const_of(sc, node.operand)
+            if c and isinstance(c[1], (int, float)):
+                return ("c", -c[1])
+        if isinstance(node, ast.UnaryOp) and isinstance(node.op, ast.Not):
+            c = self.const_of(sc, node.operand)
+            if c:
+                return ("c", not c[1])
+        if isinstance(node, ast.BinOp) and isinstance(node.op, (ast.Add, ast.Sub)):
+            a, b = self.const_of(sc, node.left), self.const_of(sc, node.right)
+            if a and b and isinstance(a[1], int) and isinstance(b[1], int):
+                return ("c", a[1] + b[1] if isinstance(node.op, ast.Add) else a[1] - b[1])
+        if isinstance(node, ast.Compare) and len(node.ops) == 1:
+            a, b = self.const_of(sc, node.left), self.const_of(sc, node.comparators[0])
+            if a and b:
+                op = node.ops[0]
+                try:
+                    if isinstance(op, ast.Is): return ("c", a[1] is b[1])
+                    if isinstance(op, ast.IsNot): return ("c", a[1] is not b[1])
+                    if isinstance(op, ast.Eq): return ("c", a[1] == b[1])
+                    if isinstance(op, ast.NotEq): return ("c", a[1] != b[1])
+                    if isinstance(op, ast.Lt): return ("c", a[1] < b[1])
+                    if isinstance(op, ast.Gt): return ("c", a[1] > b[1])
+                    if isinstance(op, ast.LtE): return ("c", a[1] <= b[1])
+                    if isinstance(op, ast.GtE): return ("c", a[1] >= b[1])
+                except Exception:
+                    return None
+        if isinstance(node, ast.Call) and isinstance(node.func, ast.Name) and node.func.id == "isinstance" and len(node.args) == 2:
+            c = self.const_of(sc, node.args[0])
+            if c is not None:
+                names = {n.id for n in ast.walk(node.args[1]) if isinstance(n, ast.Name)} | {n.attr for n in ast.walk(node.args[1]) if isinstance(n, ast.Attribute)}
+                v = c[1]
+                if v is USER:
+                    return ("c", bool(names & {"tuple", "list", "CPTensor", "TuckerTensor", "Parafac2Tensor"}))
+                if v is None or isinstance(v, (bool, int, float, str)):
+                    pyt = {"str": str, "int": int, "float": float, "bool": bool}
+                    return ("c", any(isinstance(v, pyt[n]) for n in names if n in pyt) if v is not None else False)
+        if isinstance(node, ast.BoolOp):
+            cs = [self.const_of(sc, v) for v in node.values]
+            if all(cs):
+                vals = [c[1] for c in cs]
+                return ("c", all(vals) if isinstance(node.op, ast.And) else any(vals))
+            if isinstance(node.op, ast.And) and any(c and not c[1] for c in cs):
+                return ("c", False)
+            if isinstance(node.op, ast.Or) and any(c and c[1] for c in cs):
+                return ("c", True)
+        return None
+
+    def index_of(self, sc, node):
+        c = self.const_of(sc, node)
+        if c and isinstance(c[1], int) and not isinstance(c[1], bool):
+            return c[1] if c[1] >= 0 else max(NMODES + c[1], 0)
+        return None
+
+    @staticmethod
+    def is_scalar_tuple_index(node):
+        """x[i, j]: one element of an array (a NumPy scalar: immutable, no view)"""
+        return isinstance(node, ast.Tuple) and all(isinstance(e, (ast.Name, ast.Constant, ast.BinOp, ast.UnaryOp)) and
+                                                   not (isinstance(e, ast.Constant) and e.value in (Ellipsis, None)) for e in node.elts)
+
+    @staticmethod
+    def is_slice_index(node):
+        if isinstance(node, (ast.Slice, ast.Tuple)):
+            return True
+        if isinstance(node, ast.Constant) and node.value is Ellipsis:
+            return True
+        if isinstance(node, ast.Subscript):      # tl.index[...]
+            return True
+        if isinstance(node, ast.Compare):        # boolean mask
+            return True
+        return False
+
+    @staticmethod
+    def call_name(node):
+        f = node.func
+        parts = []
+        while isinstance(f, ast.Attribute):
+            parts.append(f.attr)
+            f = f.value
+        if isinstance(f, ast.Name):
+            parts.append(f.id)
+            return list(reversed(parts))
+        return None
+
+    def self_var(self, sc, node):
+        """pseudo variable of self.attr (estimator objects are configuration holders: their attributes are locals)"""
+        if isinstance(node, ast.Attribute) and isinstance(node.value, ast.Name) and node.value.id == "self" and "self" in sc.params:
+            return sc.var("self." + node.attr)
+        return None
+
+    def base_var(self, sc, node, out):
+        """variable holding the container / array denoted by `node` (evaluated into a temporary when needed)"""
+        if isinstance(node, ast.Name):
+            if node.id in sc.vars or node.id not in sc.consts:
+                return sc.var(node.id)
+        sv = self.self_var(sc, node)
+        if sv is not None:
+            return sv
+        t = sc.tmp()
+        out.append(self.expr_to(sc, t, node))
+        return t
+
+    # ------------------------------------------------------------------ expressions
+    def expr_to(self, sc, t, node):
+        """pcmd node assigning the value of the expression to variable t"""
+        out = []
+        if isinstance(node, ast.Name):
+            if node.id in sc.consts and sc.consts[node.id] is None:
+                return prim("Rebind", t, sc.null)
+            if node.id in sc.vars:
+                return prim("Rebind", t, sc.vars[node.id])
+            return prim("Alloc", t)                      # module-level name / loop constant
+        if isinstance(node, ast.Constant):
+            return prim("Rebind", t, sc.null) if node.value is None else prim("Alloc", t)
+        if isinstance(node, (ast.Tuple, ast.List)):
+            ys = []
+            for e in node.elts:
+                if isinstance(e, ast.Starred):
+                    e = e.value
+                ys.append(self.base_var(sc, e, out))
+            out.append(prim("ListNew", t, tuple(ys)))
+            return seqn(*out)
+        if isinstance(node, (ast.ListComp, ast.GeneratorExp, ast.SetComp)):
+            return self.comprehension(sc, t, node)
+        if isinstance(node, ast.IfExp):
+            c = self.const_of(sc, node.test)
+            if c:
+                return self.expr_to(sc, t, node.body if c[1] else node.orelse)
+            return ("choice", self.expr_to(sc, t, node.body), self.expr_to(sc, t, node.orelse))
+        if isinstance(node, ast.BoolOp) and isinstance(node.op, ast.Or):
+            r = self.expr_to(sc, t, node.values[-1])
+            for v in reversed(node.values[:-1]):
+                r = ("choice", self.expr_to(sc, t, v), r)
+            return r
+        if isinstance(node, ast.Attribute):
+            sv = self.self_var(sc, node)
+            if sv is not None:
+                return prim("Rebind", t, sv)
+            if node.attr == "T":
+                y = self.base_var(sc, node.value, out)
+                out.append(prim("View", t, y)); return seqn(*out)
+            if node.attr in ATTR_INDEX:
+                y = self.base_var(sc, node.value, out)
+                out.append(prim("ListGet", t, y, ATTR_INDEX[node.attr])); return seqn(*out)
+            return prim("Alloc", t)
+        if isinstance(node, ast.Subscript):
+            if self.is_scalar_tuple_index(node.slice):
+                return prim("Alloc", t)
+            y = self.base_var(sc, node.value, out)
+            if self.is_slice_index(node.slice):
+                out.append(prim("View", t, y)); return seqn(*out)
+            i = self.index_of(sc, node.slice)
+            if i is not None:
+                out.append(prim("ListGet", t, y, i)); return seqn(*out)
+            self.note("index")
+            r = prim("ListGet", t, y, NMODES - 1)
+            for k in range(NMODES - 2, -1, -1):
+                r = ("choice", prim("ListGet", t, y, k), r)
+            out.append(r); return seqn(*out)
+        if isinstance(node, ast.BinOp):
+            if isinstance(node.op, ast.Add) and (isinstance(node.right, ast.List) or isinstance(node.left, ast.List)):
+                lst, other = (node.right, node.left) if isinstance(node.right, ast.List) else (node.left, node.right)
+                y = self.base_var(sc, other, out)
+                out.append(prim("ListCopy", t, y, NMODES))
+                for e in lst.elts:
+                    v = self.base_var(sc, e, out)
+                    out.append(prim("ListAppend", t, v))
+                return seqn(*out)
+            if isinstance(node.op, ast.Mult) and isinstance(node.left, ast.List) and len(node.left.elts) == 1:
+                v = self.base_var(sc, node.left.elts[0], out)
+                out.append(prim("ListNew", t, (v,) * NMODES)); return seqn(*out)
+            return prim("Alloc", t)
+        if isinstance(node, ast.Call):
+            return self.call(sc, t, node)
+        if isinstance(node, ast.NamedExpr):
+            r = self.expr_to(sc, t, node.value)
+            return seqn(r, self.store(sc, node.target, t))
+        if isinstance(node, ast.Starred):
+            return self.expr_to(sc, t, node.value)
+        return prim("Alloc", t)
+
+    def iter_items(self, sc, gen_target, it, k, out):
+        """bind the loop target(s) for iteration k of `for target in it`; returns extra consts"""
+        consts = {}
+        name = self.call_name(it) if isinstance(it, ast.Call) else None
+        if name and name[-1] == "range":
+            if isinstance(gen_target, ast.Name):
+                consts[gen_target.id] = k
+            return consts
+        if name and name[-1] == "enumerate" and isinstance(gen_target, ast.Tuple) and len(gen_target.elts) == 2:
+            if isinstance(gen_target.elts[0], ast.Name):
+                consts[gen_target.elts[0].id] = k
+            y = self.base_var(sc, it.args[0], out)
+            tv = sc.tmp()
+            out.append(prim("ListGet", tv, y, k))
+            out.append(self.store(sc, gen_target.elts[1], tv))
+            return consts
+        if name and name[-1] == "zip" and isinstance(gen_target, ast.Tuple) and len(gen_target.elts) == len(it.args):
+            for e, a in zip(gen_target.elts, it.args):
+                y = self.base_var(sc, a, out)
+                tv = sc.tmp()
+                out.append(prim("ListGet", tv, y, k))
+                out.append(self.store(sc, e, tv))
+            return consts
+        # a container (or a list of modes): the k-th element; a Name target is also treated as the constant k when it is
+        # only a mode index (lists of ints hold no references: reading them is harmless)
+        y = self.base_var(sc, it, out)
+        tv = sc.tmp()
+        out.append(prim("ListGet", tv, y, k))
+        out.append(self.store(sc, gen_target, tv))
+        if isinstance(gen_target, ast.Name):
+            consts[gen_target.id] = ("maybe", k)
+        return consts
+
+    def comprehension(self, sc, t, node):
+        out = []
+        if len(node.generators) != 1:
+            return prim("Alloc", t)
+        g = node.generators[0]
+        saved = dict(sc.consts)
+        items = []
+        for k in range(NMODES):
+            extra = self.iter_items(sc, g.target, g.iter, k, out)
+            for n_, v in extra.items():
+                sc.consts[n_] = v[1] if isinstance(v, tuple) else v
+            skip = False
+            for cond in g.ifs:
+                c = self.const_of(sc, cond)
+                if c and not c[1]:
+                    skip = True
+            if not skip:
+                tv = sc.tmp()
+                out.append(self.expr_to(sc, tv, node.elt))
+                items.append(tv)
+            sc.consts = dict(saved)
+        out.append(prim("ListNew", t, tuple(items)))
+        return seqn(*out)
+
+    def call(self, sc, t, node):
+        out = []
+        name = self.call_name(node)
+        for kw in node.keywords:
+            if kw.arg == "out":
+                y = self.base_var(sc, kw.value, out)
+                out.append(prim("WriteInto", y))
+        if name is None:
+            return seqn(*out, prim("Alloc", t))
+        last = name[-1]
+        # method call on a local object
+        if len(name) == 2 and (name[0] in sc.vars) and name[0] not in ("tl", "T", "np", "self"):
+            y = sc.vars[name[0]]
+            if last in LIST_STORE_METHODS and node.args:
+                v = self.base_var(sc, node.args[-1], out)
+                out.append(prim("ListAppend", y, v)); out.append(prim("Alloc", t)); return seqn(*out)
+            if last == "pop":
+                i = self.index_of(sc, node.args[0]) if node.args else NMODES - 1
+                out.append(prim("ListGet", t, y, i if i is not None else 0))
+                out.append(prim("ListRemove", y) if node.args else prim("ListPop", y)); return seqn(*out)
+            if last in LIST_WRITE_METHODS:
+                out.append(prim("ListRemove", y)); out.append(prim("Alloc", t)); return seqn(*out)
+            if last == "copy":
+                out.append(prim("ListCopy", t, y, NMODES)); return seqn(*out)
+            if last in ("cp_copy", "tucker_copy"):
+                out.append(prim("Alloc", t)); return seqn(*out)
+            if last in VIEW_FUNCS:
+                out.append(prim("View", t, y)); return seqn(*out)
+            out.append(prim("Alloc", t)); return seqn(*out)
+        if len(name) == 3 and name[0] == "self" and "self" in sc.params:     # self.attr.method(...)
+            y = sc.var("self." + name[1])
+            if last in LIST_STORE_METHODS and node.args:
+                v = self.base_var(sc, node.args[-1], out)
+                out.append(prim("ListAppend", y, v))
+            elif last in LIST_WRITE_METHODS or last == "pop":
+                out.append(prim("ListRemove", y))
+            out.append(prim("Alloc", t)); return seqn(*out)
+        if last in INPLACE_CALLS and node.args:
+            y = self.base_var(sc, node.args[0], out)
+            out.append(prim("WriteInto", y)); out.append(prim("Rebind", t, y)); return seqn(*out)
+        if last in COPY_FUNCS and node.args:
+            y = self.base_var(sc, node.args[0], out)
+            out.append(prim("Copy", t, y)); return seqn(*out)
+        if last in VIEW_FUNCS and node.args:
+            y = self.base_var(sc, node.args[0], out)
+            out.append(prim("View", t, y)); return seqn(*out)
+        if last in LISTCOPY_FUNCS and len(name) == 1 and node.args:
+            y = self.base_var(sc, node.args[0], out)
+            out.append(prim("ListCopy", t, y, NMODES)); return seqn(*out)
+        if last in WRAPPERS and node.args:
+            a = node.args[0]
+            if isinstance(a, (ast.Tuple, ast.List)):
+                out.append(self.expr_to(sc, t, a)); return seqn(*out)
+            y = self.base_var(sc, a, out)
+            out.append(prim("ListCopy", t, y, 3)); return seqn(*out)
+        if last in SUMMARIES and sc.depth >= 0 and last != sc.fname:
+            fd = self.funcs.get(last)
+            if fd is not None:
+                a = fd.args
+                params = [x.arg for x in a.posonlyargs + a.args + a.kwonlyargs]
+                given = {}
+                for i, e in enumerate(node.args):
+                    if i < len(params) and not isinstance(e, ast.Starred):
+                        given[i] = e
+                for kw in node.keywords:
+                    if kw.arg in params:
+                        given[params.index(kw.arg)] = kw.value
+                writes, aliases = SUMMARIES[last]
+                for i in writes:
+                    if i in given:
+                        y = self.base_var(sc, given[i], out); out.append(prim("WriteInto", y))
+                r = prim("Alloc", t)
+                for i in aliases:
+                    if i in given and not (self.const_of(sc, given[i]) or (None, 1))[1] is None:
+                        y = self.base_var(sc, given[i], out)
+                        r = ("choice", prim("Rebind", t, y), r)
+                out.append(r)
+                return seqn(*out)
+        fdef = sc.local_funcs.get(last) if len(name) == 1 else None
+        if fdef is None and (len(name) == 1 or name[0] in ("tl", "T", "tenalg")) and last in self.inline:
+            fdef = self.funcs.get(last)
+        if fdef is not None and sc.depth < MAXDEPTH:
+            return self.inline_call(sc, t, node, fdef, out)
+        out.append(prim("Alloc", t))
+        return seqn(*out)
+
+    def inline_call(self, sc, t, node, fdef, out):
+        a = fdef.args
+        params = [x.arg for x in a.posonlyargs + a.args + a.kwonlyargs]
+        defaults = {}
+        pos = a.posonlyargs + a.args
+        for p, d in zip(pos[len(pos) - len(a.defaults):], a.defaults):
+            defaults[p.arg] = d
+        for p, d in zip(a.kwonlyargs, a.kw_defaults):
+            if d is not None:
+                defaults[p.arg] = d
+        given = {}
+        for i, e in enumerate(node.args):
+            if isinstance(e, ast.Starred) or i >= len(params):
+                continue
+            given[params[i]] = e
+        dynamic = False
+        for kw in node.keywords:
+            if kw.arg is None:
+                dynamic = True
+            elif kw.arg in params:
+                given[kw.arg] = kw.value
+        consts, argvars = {}, []
+        for p in params:
+            if p in given:
+                c = self.const_of(sc, given[p])
+                if c is not None and (c[1] is None or isinstance(c[1], (bool, int, str, float, _Sentinel))):
+                    consts[p] = c[1]
+                    argvars.append(sc.null if c[1] is None else self.base_var(sc, given[p], out))
+                else:
+                    argvars.append(self.base_var(sc, given[p], out))
+            else:
+                if p in defaults and not dynamic:
+                    c = self.const_of(Scope.__new__(Scope), defaults[p]) if isinstance(defaults[p], ast.Constant) else None
+                    if c is not None:
+                        consts[p] = c[1]
+                argvars.append(sc.null)
+        body, csc = self.function(fdef, consts, sc.depth + 1, sc.local_funcs)
+        out.append(("call", t, body, tuple(argvars), csc.ret, self.new_scope_id(), csc.null))
+        return seqn(*out)
+
+    def new_scope_id(self):
+        self.scope_counter += 1
+        return self.scope_counter
+
+    # ------------------------------------------------------------------ stores
+    def store(self, sc, target, v):
+        """pcmd node storing variable v into the target"""
+        out = []
+        if isinstance(target, ast.Name):
+            sc.consts.pop(target.id, None)
+            return prim("Rebind", sc.var(target.id), v)
+        if isinstance(target, (ast.Tuple, ast.List)):
+            for i, e in enumerate(target.elts):
+                if isinstance(e, ast.Starred):
+                    e = e.value
+                tv = sc.tmp()
+                out.append(prim("ListGet", tv, v, i))
+                out.append(self.store(sc, e, tv))
+            return seqn(*out)
+        if isinstance(target, ast.Attribute):
+            sv = self.self_var(sc, target)
+            if sv is not None:
+                return prim("Rebind", sv, v)
+            y = self.base_var(sc, target.value, out)
+            if target.attr in ("shape", "rank"):          # tuples of ints: no references inside
+                v = sc.tmp(); out.append(prim("Alloc", v))
+            out.append(prim("ListSet", y, ATTR_INDEX.get(target.attr, 3), v))
+            return seqn(*out)
+        if isinstance(target, ast.Subscript):
+            y = self.base_var(sc, target.value, out)
+            if self.is_slice_index(target.slice):
+                out.append(prim("WriteInto", y)); return seqn(*out)
+            i = self.index_of(sc, target.slice)
+            if i is None:
+                self.note("store index"); i = 0
+            out.append(prim("ListSet", y, i, v))
+            return seqn(*out)
+        return SKIP
+
+    # ------------------------------------------------------------------ statements (continuation passing for return / raise)
+    @staticmethod
+    def has_exit(stmts):
+        for s in stmts:
+            for n in ast.walk(s):
+                if isinstance(n, (ast.Return, ast.Raise)):
+                    return True
+        return False
+
+    def block(self, sc, stmts, k, in_loop=False):
+        """pcmd of the statement list followed by continuation k (a pcmd node; SKIP = nothing)"""
+        if not stmts:
+            return k
+        s, rest = stmts[0], stmts[1:]
+        if isinstance(s, ast.Return):
+            if in_loop:
+                self.note("return in loop")
+            if s.value is None:
+                return prim("Rebind", sc.ret, sc.null)
+            return self.expr_to(sc, sc.ret, s.value)
+        if isinstance(s, ast.Raise):
+            return SKIP
+        if isinstance(s, ast.If):
+            c = self.const_of(sc, s.test)
+            if c is not None:
+                return self.block(sc, list(s.body if c[1] else s.orelse) + list(rest), k, in_loop)
+            saved = dict(sc.consts)
+            if self.has_exit([s]) and not in_loop:
+                kk = self.block(sc, rest, k, in_loop)          # shared continuation (a DAG)
+                after = dict(sc.consts)
+                sc.consts = dict(saved); a = self.block(sc, s.body, kk, in_loop)
+                sc.consts = dict(saved); b = self.block(sc, s.orelse, kk, in_loop)
+                sc.consts = {n: v for n, v in after.items() if n in saved}
+                return ("choice", a, b)
+            a = self.block(sc, s.body, SKIP, in_loop); ca = dict(sc.consts)
+            sc.consts = dict(saved); b = self.block(sc, s.orelse, SKIP, in_loop)
+            sc.consts = {n: v for n, v in sc.consts.items() if ca.get(n, object()) == v}
+            return seqn(("choice", a, b), self.block(sc, rest, k, in_loop))
+        node = self.stmt(sc, s)
+        return seqn(node, self.block(sc, rest, k, in_loop))
+
+    def uses_as_index(self, body, name):
+        for s in body:
+            for n in ast.walk(s):
+                if isinstance(n, ast.Subscript) and not isinstance(n.slice, (ast.Tuple, ast.Slice)) and \
+                        any(isinstance(m, ast.Name) and m.id == name for m in ast.walk(n.slice)):
+                    return True
+                if isinstance(n, ast.Compare) and any(isinstance(m, ast.Name) and m.id == name for m in ast.walk(n)) and \
+                        not any(isinstance(m, ast.Constant) and isinstance(m.value, int) for m in ast.walk(n)):
+                    return True          # `i != mode`, `mode in fixed_modes` (not `iteration >= 1`, `iteration % 2 == 0`)
+                if isinstance(n, ast.keyword) and n.arg in ("mode", "skip", "skip_matrix") and isinstance(n.value, ast.Name) and n.value.id == name:
+                    return True
+        return False
+
+    def stmt(self, sc, s):
+        out = []
+        if isinstance(s, ast.Assign):
+            if len(s.targets) == 1 and isinstance(s.targets[0], (ast.Tuple, ast.List)) and isinstance(s.value, (ast.Tuple, ast.List)) \
+                    and len(s.targets[0].elts) == len(s.value.elts) and not any(isinstance(e, ast.Starred) for e in s.targets[0].elts + s.value.elts):
+                tmps = []
+                for e in s.value.elts:                      # a, b = x, y : element-wise (no tuple is built)
+                    tv = sc.tmp(); out.append(self.expr_to(sc, tv, e)); tmps.append(tv)
+                for tgt, tv in zip(s.targets[0].elts, tmps):
+                    out.append(self.store(sc, tgt, tv))
+                return seqn(*out)
+            if len(s.targets) == 1 and isinstance(s.targets[0], ast.Name):
+                c = self.const_of(sc, s.value)
+                r = self.expr_to(sc, sc.var(s.targets[0].id), s.value)
+                sc.consts.pop(s.targets[0].id, None)
+                if c is not None and (c[1] is None or isinstance(c[1], (bool, int, str))):
+                    sc.consts[s.targets[0].id] = c[1]
+                return r
+            tv = sc.tmp()
+            out.append(self.expr_to(sc, tv, s.value))
+            for tgt in s.targets:
+                out.append(self.store(sc, tgt, tv))
+            return seqn(*out)
+        if isinstance(s, ast.AnnAssign) and s.value is not None:
+            tv = sc.tmp(); out.append(self.expr_to(sc, tv, s.value)); out.append(self.store(sc, s.target, tv)); return seqn(*out)
+        if isinstance(s, ast.AugAssign):
+            tgt = s.target
+            if isinstance(tgt, ast.Name):
+                sc.consts.pop(tgt.id, None)
+                return prim("InplaceOp", sc.var(tgt.id))
+            sv = self.self_var(sc, tgt)
+            if sv is not None:
+                return prim("InplaceOp", sv)
+            if isinstance(tgt, ast.Subscript):
+                y = self.base_var(sc, tgt.value, out)
+                if self.is_slice_index(tgt.slice):
+                    out.append(prim("WriteInto", y)); return seqn(*out)
+                i = self.index_of(sc, tgt.slice)
+                if i is None:
+                    self.note("augassign index"); i = 0
+                tv = sc.tmp()
+                out += [prim("ListGet", tv, y, i), prim("InplaceOp", tv), prim("ListSet", y, i, tv)]
+                return seqn(*out)
+            if isinstance(tgt, ast.Attribute):
+                y = self.base_var(sc, tgt.value, out); tv = sc.tmp(); i = ATTR_INDEX.get(tgt.attr, 3)
+                out += [prim("ListGet", tv, y, i), prim("InplaceOp", tv), prim("ListSet", y, i, tv)]
+                return seqn(*out)
+            return SKIP
+        if isinstance(s, ast.Expr):
+            if isinstance(s.value, ast.Call):
+                return self.expr_to(sc, sc.tmp(), s.value)
+            return SKIP
+        if isinstance(s, ast.For):
+            it = s.iter
+            name = self.call_name(it) if isinstance(it, ast.Call) else None
+            tnames = [n.id for n in ast.walk(s.target) if isinstance(n, ast.Name)]
+            unroll = (name and name[-1] in ("enumerate", "zip")) or any(self.uses_as_index(s.body, n) for n in tnames) \
+                or (isinstance(it, ast.Name) and not (name and name[-1] == "range"))
+            if name and name[-1] == "range" and not any(self.uses_as_index(s.body, n) for n in tnames):
+                unroll = False
+            saved = dict(sc.consts)
+            if unroll:
+                for k in range(NMODES):
+                    extra = self.iter_items(sc, s.target, it, k, out)
+                    for n_, v in extra.items():
+                        sc.consts[n_] = v[1] if isinstance(v, tuple) else v
+                    out.append(self.block(sc, s.body, SKIP, True))
+                    sc.consts = {n: v for n, v in sc.consts.items() if n in saved and saved[n] == v}
+                return seqn(*out)
+            for n_ in tnames:
+                sc.consts.pop(n_, None)
+            pre = []
+            if not (name and name[-1] == "range"):
+                extra = self.iter_items(sc, s.target, it, 0, pre)
+            assigned = {n.id for st in s.body for n in ast.walk(st) if isinstance(n, ast.Name) and isinstance(n.ctx, ast.Store)}
+            for n_ in assigned | set(tnames):
+                sc.consts.pop(n_, None)
+            body = seqn(*pre, self.block(sc, s.body, SKIP, True))
+            for n_ in assigned | set(tnames):
+                sc.consts.pop(n_, None)
+            return seqn(*out, ("repeat", self.repeat, body))
+        if isinstance(s, ast.While):
+            assigned = {n.id for st in s.body for n in ast.walk(st) if isinstance(n, ast.Name) and isinstance(n.ctx, ast.Store)}
+            for n_ in assigned:
+                sc.consts.pop(n_, None)
+            body = self.block(sc, s.body, SKIP, True)
+            for n_ in assigned:
+                sc.consts.pop(n_, None)
+            return ("repeat", self.repeat, body)
+        if isinstance(s, ast.With):
+            return self.block(sc, s.body, SKIP, True)
+        if isinstance(s, ast.Try):
+            body = self.block(sc, s.body, SKIP, True)
+            hs = SKIP
+            for h in s.handlers:
+                hs = ("choice", hs, self.block(sc, h.body, SKIP, True))
+            return seqn(body, hs, self.block(sc, s.orelse, SKIP, True), self.block(sc, s.finalbody, SKIP, True))
+        if isinstance(s, ast.FunctionDef):
+            sc.local_funcs[s.name] = s
+            return SKIP
+        if isinstance(s, ast.Delete):
+            for tgt in s.targets:
+                if isinstance(tgt, ast.Subscript):
+                    y = self.base_var(sc, tgt.value, out); out.append(prim("ListRemove", y))
+            return seqn(*out)
+        return SKIP
+
+    def function(self, fdef, consts, depth, local_funcs=None, use_defaults=False):
+        if use_defaults:
+            a = fdef.args
+            pos = a.posonlyargs + a.args
+            dft = {p.arg: d for p, d in zip(pos[len(pos) - len(a.defaults):], a.defaults)}
+            dft.update({p.arg: d for p, d in zip(a.kwonlyargs, a.kw_defaults) if d is not None})
+            full = {p: d.value for p, d in dft.items() if isinstance(d, ast.Constant)}
+            full.update(consts)
+            consts = {p: v for p, v in full.items() if v is not UNKNOWN}
+        sc = Scope(fdef, consts, depth, local_funcs)
+        body = self.block(sc, list(fdef.body), SKIP)
+        return body, sc
+
+
+# ---------------------------------------------------------------------------- backward slice, simplification, printing
+WRITES = {"WriteInto": (0,), "InplaceOp": (0,), "ListSet": (0, 2), "ListAppend": (0, 1), "ListRemove": (0,), "ListPop": (0,)}
+SOURCES = {"View": (1,), "Rebind": (1,), "ListCopy": (1,), "ListGet": (1,), "Copy": (), "Alloc": ()}
+
+
+def slice_term(root):
+    prims, calls, seen = [], [], set()
+
+    def walk(n, sc):
+        key = (id(n), sc)
+        if key in seen:
+            return
+        seen.add(key)
+        if n[0] == "prim":
+            prims.append((sc, n[1]))
+        elif n[0] == "seq":
+            for m in n[1]:
+                walk(m, sc)
+        elif n[0] == "choice":
+            walk(n[1], sc); walk(n[2], sc)
+        elif n[0] == "repeat":
+            walk(n[2], sc)
+        elif n[0] == "call":
+            calls.append((sc, n))
+            walk(n[2], n[5])
+    walk(root, 0)
+    R = set()
+    for sc, c in prims:
+        if c[0] in WRITES:
+            for i in WRITES[c[0]]:
+                R.add((sc, c[1 + i]))
+    changed = True
+    while changed:
+        changed = False
+        n0 = len(R)
+        for sc, c in prims:
+            if c[0] == "ListNew":
+                if (sc, c[1]) in R:
+                    R.update((sc, y) for y in c[2])
+            elif c[0] in SOURCES and (sc, c[1]) in R:
+                for i in SOURCES[c[0]]:
+                    R.add((sc, c[1 + i]))
+        for sc, n in calls:
+            _, x, body, args, ret, csc, nullv = n
+            if (sc, x) in R:
+                R.add((csc, ret))
+            for i, a in enumerate(args):
+                if (csc, i) in R:
+                    R.add((sc, a))
+        changed = len(R) != n0
+    memo = {}
+
+    def rebuild(n, sc):
+        key = (id(n), sc)
+        if key in memo:
+            return memo[key]
+        if n[0] == "prim":
+            c = n[1]
+            r = n if (c[0] in WRITES or (sc, c[1]) in R) else SKIP
+        elif n[0] == "seq":
+            r = seqn(*[rebuild(m, sc) for m in n[1]])
+        elif n[0] == "choice":
+            a, b = rebuild(n[1], sc), rebuild(n[2], sc)
+            r = a if a == b else ("choice", a, b)
+        elif n[0] == "repeat":
+            b = rebuild(n[2], sc)
+            r = SKIP if b == SKIP else ("repeat", n[1], b)
+        else:
+            _, x, body, args, ret, csc, nullv = n
+            b = rebuild(body, csc)
+            r = SKIP if (b == SKIP and (sc, x) not in R) else ("call", x, b, args, ret, csc, nullv)
+        memo[key] = r
+        return r
+    return rebuild(root, 0)
+
+
+ALLOCATING = {"Alloc", "Copy", "ListNew", "ListCopy"}
+
+
+def assigned_vars(n, acc=None, seen=None):
+    acc = set() if acc is None else acc
+    seen = set() if seen is None else seen
+    if id(n) in seen:
+        return acc
+    seen.add(id(n))
+    if n[0] == "prim":
+        if n[1][0] in ALLOCATING or n[1][0] in SOURCES:
+            acc.add(n[1][1])
+    elif n[0] == "seq":
+        for m in n[1]:
+            assigned_vars(m, acc, seen)
+    elif n[0] == "choice":
+        assigned_vars(n[1], acc, seen); assigned_vars(n[2], acc, seen)
+    elif n[0] == "repeat":
+        assigned_vars(n[2], acc, seen)
+    elif n[0] == "call":
+        acc.add(n[1])
+    return acc
+
+
+def peephole(root, null0):
+    """drop InplaceOp / WriteInto through a variable that is DEFINITELY bound to an object allocated by this run (or to None)
+    on every path reaching the statement (dominating allocation, no intervening rebinding): such a write is accepted by
+    `safe` whatever the rest of the state is, so removing it changes no verdict; it removes most data-dependent choices."""
+    memo = {}
+
+    def go(n, F):
+        key = (id(n), F)
+        if key in memo:
+            return memo[key]
+        if n[0] == "prim":
+            c = n[1]; k = c[0]
+            if k in ALLOCATING:
+                r = (n, F | {c[1]})
+            elif k in ("View", "Rebind"):
+                r = (n, (F | {c[1]}) if c[2] in F else (F - {c[1]}))
+            elif k == "ListGet":
+                r = (n, F - {c[1]})
+            elif k in ("InplaceOp", "WriteInto") and c[1] in F:
+                r = (SKIP, F)
+            else:
+                r = (n, F)
+        elif n[0] == "seq":
+            out = []
+            for m in n[1]:
+                m2, F = go(m, F)
+                out.append(m2)
+            r = (seqn(*out), F)
+        elif n[0] == "choice":
+            a, Fa = go(n[1], F); b, Fb = go(n[2], F)
+            r = ((a if a == b else ("choice", a, b)), Fa & Fb)
+        elif n[0] == "repeat":
+            Fin = F - frozenset(assigned_vars(n[2]))
+            b, Fb = go(n[2], Fin)
+            r = ((SKIP if b == SKIP else ("repeat", n[1], b)), Fin & Fb)
+        else:
+            _, x, body, args, ret, csc, nullv = n
+            Fc = frozenset(i for i, a in enumerate(args) if a in F) | {nullv}
+            b, Fb = go(body, Fc)
+            r = (("call", x, b, args, ret, csc, nullv), (F | {x}) if ret in Fb else (F - {x}))
+        memo[key] = r
+        return r
+    return go(root, frozenset({null0}))[0]
+
+
+def count_paths(n, memo=None):
+    memo = {} if memo is None else memo
+    if id(n) in memo:
+        return memo[id(n)]
+    if n[0] == "prim":
+        r = 1
+    elif n[0] == "seq":
+        r = 1
+        for m in n[1]:
+            r *= count_paths(m, memo)
+    elif n[0] == "choice":
+        r = count_paths(n[1], memo) + count_paths(n[2], memo)
+    elif n[0] == "repeat":
+        r = count_paths(n[2], memo) ** n[1]
+    else:
+        r = count_paths(n[2], memo)
+    memo[id(n)] = r
+    return r
+
+
+def cmd_lit(c):
+    k = c[0]
+    v = lambda i: f"{c[i]}%nat"
+    if k == "Alloc": return f"(Alloc {v(1)} 1%nat)"
+    if k == "Copy": return f"(Copy {v(1)} {v(2)})"
+    if k == "View": return f"(View {v(1)} {v(2)} [0%nat])"
+    if k == "Rebind": return f"(Rebind {v(1)} {v(2)})"
+    if k == "WriteInto": return f"(WriteInto {v(1)} [1%Z])"
+    if k == "InplaceOp": return f"(InplaceOp {v(1)} 2%Z)"
+    if k == "ListNew": return f"(ListNew {v(1)} [" + "; ".join(f"{y}%nat" for y in c[2]) + "])" if c[2] else f"(ListNew {v(1)} (@nil nat))"
+    if k == "ListCopy": return f"(ListCopy {v(1)} {v(2)} {v(3)})"
+    if k == "ListGet": return f"(ListGet {v(1)} {v(2)} {v(3)})"
+    if k == "ListSet": return f"(ListSet {v(1)} {v(2)} {v(3)})"
+    if k == "ListAppend": return f"(ListAppend {v(1)} {v(2)})"
+    if k == "ListRemove": return f"(ListRemove {v(1)} 0%nat)"
+    if k == "ListPop": return f"(ListPop {v(1)})"
+    raise KeyError(k)
+
+
+class Printer:
+    """pcmd literal with shared subterms as Definitions"""
+    def __init__(self, prefix):
+        self.prefix, self.defs, self.names, self.refs = prefix, [], {}, {}
+
+    def count(self, n):
+        self.refs[id(n)] = self.refs.get(id(n), 0) + 1
+        if self.refs[id(n)] > 1:
+            return
+        if n[0] == "seq":
+            for m in n[1]: self.count(m)
+        elif n[0] == "choice":
+            self.count(n[1]); self.count(n[2])
+        elif n[0] == "repeat":
+            self.count(n[2])
+        elif n[0] == "call":
+            self.count(n[2])
+
+    def lit(self, n, top=False):
+        if not top and self.refs.get(id(n), 0) > 1 and n[0] != "prim" and n != SKIP:
+            if id(n) not in self.names:
+                nm = f"{self.prefix}_{len(self.names)}"
+                self.names[id(n)] = nm
+                self.defs.append(f"Definition {nm} : pcmd := {self.lit(n, True)}.")
+            return self.names[id(n)]
+        if n[0] == "prim":
+            return f"(PPrim {cmd_lit(n[1])})"
+        if n[0] == "seq":
+            if not n[1]:
+                return "(PPrim Skip)"
+            run, parts = [], []
+            for m in n[1]:
+                if m[0] == "prim":
+                    run.append(cmd_lit(m[1]))
+                else:
+                    if run:
+                        parts.append("(PPrim (seq [" + "; ".join(run) + "]))"); run = []
+                    parts.append(self.lit(m))
+            if run:
+                parts.append("(PPrim (seq [" + "; ".join(run) + "]))")
+            return parts[0] if len(parts) == 1 else "(pseq [" + "; ".join(parts) + "])"
+        if n[0] == "choice":
+            return f"(PChoice {self.lit(n[1])} {self.lit(n[2])})"
+        if n[0] == "repeat":
+            return f"(PRepeat {n[1]}%nat {self.lit(n[2])})"
+        _, x, body, args, ret, csc, nullv = n
+        return f"(PCall {x}%nat {self.lit(body)} [" + "; ".join(f"{a}%nat" for a in args) + f"] {ret}%nat)" if args else \
+            f"(PCall {x}%nat {self.lit(body)} (@nil nat) {ret}%nat)"
+
+
+U, NN = UNKNOWN, NONNULL
+ENTRIES = [
+    # (function, documented in-place parameters, [option sets: deviations from the signature's defaults])
+    ("initialize_cp", {}, [dict(init=U, mask=U, normalize_factors=U, non_negative=U)]),
+    ("error_calc", {}, [dict(mask=U, mttkrp=U, sparsity=U)]),
+    ("sparsify_tensor", {}, [dict()]),
+    ("parafac", {}, [dict(init=USER, fixed_modes=NN, mask=NN, tol=NN), dict(init=USER, normalize_factors=True, tol=NN, return_errors=True, mask=NN),
+                     dict(init=USER, orthogonalise=NN, l2_reg=NN, sparsity=NN, callback=NN, tol=NN), dict(init=USER, linesearch=True, mask=NN, tol=NN, fixed_modes=NN),
+                     dict(init="svd", mask=NN, tol=0), dict(init="random", fixed_modes=NN)]),
+    ("randomised_parafac", {}, [dict(init=USER, tol=NN), dict()]),
+    ("non_negative_parafac", {}, [dict(init=USER, fixed_modes=NN, mask=NN, tol=NN), dict(init=USER, normalize_factors=True, tol=NN), dict(mask=NN)]),
+    ("non_negative_parafac_hals", {}, [dict(init=USER, sparsity_coefficients=NN, fixed_modes=NN, tol=NN), dict(init=USER, normalize_factors=True, nn_modes=NN, tol=NN), dict()]),
+    ("initialize_tucker", {}, [dict(init=U, non_negative=U, mask=U)]),
+    ("partial_tucker", {}, [dict(init=USER, mask=NN, modes=NN, tol=NN), dict(mask=NN)]),
+    ("tucker", {}, [dict(init=USER, mask=NN, tol=NN), dict(init=USER, fixed_factors=NN, tol=NN), dict()]),
+    ("non_negative_tucker", {}, [dict(init=USER, tol=NN, normalize_factors=U)]),
+    ("non_negative_tucker_hals", {}, [dict(init=USER, sparsity_coefficients=NN, fixed_modes=NN, tol=NN), dict(init=USER, algorithm="active_set", normalize_factors=True, tol=NN), dict()]),
+    ("initialize_constrained_parafac", {}, [dict(init=U)]),
+    ("constrained_parafac", {}, [dict(init=USER, fixed_modes=NN, non_negative=True), dict()]),
+    ("initialize_decomposition", {}, [dict(init=U)]),
+    ("parafac2", {}, [dict(init=USER, nn_modes=NN, normalize_factors=True), dict(init=USER, linesearch=True), dict()]),
+    ("robust_pca", {}, [dict(mask=U)]),
+    ("hals_nnls", {"V": True}, [dict(V=NN, sparsity_coefficient=NN, nonzero_rows=True, callback=NN), dict(V=NN)]),
+    ("hals_nnls", {}, [dict(V=None)]),
+    ("fista", {}, [dict(x=U, lr=U, sparsity_coef=U)]),
+    ("active_set_nnls", {}, [dict(x=NN), dict(x=None)]),
+    ("admm", {}, [dict(n_const=U)]),
+    ("process_regularization_weights", {}, [dict()]),
+    ("cp_normalize", {}, [dict()]), ("cp_flip_sign", {}, [dict(func=U)]), ("cp_permute_factors", {}, [dict()]),
+    ("cp_mode_dot", {}, [dict(copy=True, keep_dim=U)]), ("tucker_mode_dot", {}, [dict(copy=True, keep_dim=U)]),
+    ("cp_mode_dot", {"cp_tensor": True}, [dict(copy=False, keep_dim=U)]), ("tucker_mode_dot", {"tucker_tensor": True}, [dict(copy=False, keep_dim=U)]),
+    ("tucker_normalize", {}, [dict()]),
+    ("parafac2_to_slices", {}, [dict(validate=U)]), ("parafac2_to_slice", {}, [dict(validate=U)]), ("parafac2_normalise", {}, [dict()]), ("khatri_rao", {}, [dict(weights=U, mask=U, skip_matrix=U)]),
+    ("CP_PLSR.fit", {}, [dict()]), ("CP_PLSR.predict", {}, [dict()]), ("CP_PLSR.transform", {}, [dict(Y=U)]), ("svd_interface", {}, [dict(mask=NN, n_eigenvecs=NN, non_negative=U, flip_sign=U)]),
+]
+# negative controls: the analysis must REJECT these (documented in-place parameter not flagged)
+NEGATIVE = [("hals_nnls", {}, dict(V=NN)), ("cp_mode_dot", {}, dict(copy=False)), ("tucker_mode_dot", {}, dict(copy=False))]
+INLINE = {"initialize_cp", "error_calc", "sparsify_tensor", "cp_normalize", "initialize_tucker", "partial_tucker", "hals_nnls", "fista", "active_set_nnls",
+          "initialize_constrained_parafac", "initialize_decomposition", "parafac", "non_negative_parafac_hals", "process_regularization_weights",
+          "cp_flip_sign", "parafac2_to_slice", "admm", "tucker_normalize", "_compute_projections", "_project_tensors", "cp_mode_dot", "tucker_mode_dot"}
+
+
+STATIC_CAP = 20000        # paths per extracted skeleton evaluated inside Coq; larger ones are retried with one sweep, then skipped and counted
+F_, T_ = "false", "true"
+HAND_WRITTEN = {    # (function, in-place parameters, option-set index) -> (hand-written skeleton of Corr.C15, its flags)
+    ("parafac", (), 0): ("(KParafacN 3%nat 2%nat 2%nat (Some 1%nat) [0%nat; 1%nat; 2%nat])", [F_] * 4),
+    ("parafac", (), 3): ("KParafac", [F_] * 4),
+    ("initialize_cp", (), 0): ("(KInitCpN 3%nat)", [F_] * 2),
+    ("initialize_tucker", (), 0): ("(KInitTuckerN 3%nat)", [F_] * 2),
+    ("tucker", (), 0): ("(KTuckerN 3%nat 2%nat [0%nat; 1%nat; 2%nat])", [F_] * 3),
+    ("hals_nnls", ("V",), 1): ("KHalsNnls", [F_, F_, T_]),
+    ("cp_mode_dot", (), 0): ("KModeDotCopy", [F_, F_]),
+    ("cp_mode_dot", ("cp_tensor",), 0): ("KModeDotVecInplace", [T_, F_]),
+    ("process_regularization_weights", (), 0): ("(KPrw 3%nat [0%nat] [1%nat] [2%nat] 0%nat)", [F_, F_]),
+    ("cp_flip_sign", (), 0): ("KFlipSign", [F_]),
+    ("cp_permute_factors", (), 0): ("KPermute", [F_, F_]),
+    ("parafac2_to_slices", (), 0): ("KP2Slices", [F_]),
+    ("CP_PLSR.fit", (), 0): ("KPlsrFit", [F_, F_]),
+}
+HAND_WRITTEN_NEG = {"hals_nnls": ("KHalsNnls", [F_] * 3), "cp_mode_dot": ("KModeDotVecInplace", [F_, F_])}
+HEADER_STATIC = HEADER + "\nDefinition failing := failing_static.\n"
+
+
+def static_cases(repo, cap=STATIC_CAP):
+    """-> (definitions text, [scase literal], [description per case], skipped list, extractor)"""
+    sys.setrecursionlimit(100000)
+    ex = Extractor(repo); ex.inline = INLINE
+    ex1 = Extractor(repo, repeat=1); ex1.inline = INLINE
+    defs, cases, names, skipped = [], [], [], []
+    todo = [(n, i, k, c, True) for n, i, cs in ENTRIES for k, c in enumerate(cs)] + [(n, i, 0, c, False) for n, i, c in NEGATIVE]
+    for name, inpl, ci, cfg, expected in todo:
+        fdef = ex.funcs.get(name)
+        if fdef is None:
+            skipped.append((name, ci, "function not found")); continue
+        sweeps = 2
+        body, sc = ex.function(fdef, dict(cfg), 0, use_defaults=True)
+        term = slice_term(peephole(body, sc.null))
+        np_ = count_paths(term)
+        if np_ > cap:
+            sweeps = 1
+            body, sc = ex1.function(fdef, dict(cfg), 0, use_defaults=True)
+            term = slice_term(peephole(body, sc.null))
+            np_ = count_paths(term)
+        if np_ > cap:
+            skipped.append((name, ci, f"{np_:.3g} paths")); continue
+        cid = len(cases)
+        pr = Printer(f"sk{cid}")
+        pr.count(term)
+        lit = pr.lit(term, True)
+        defs.extend(pr.defs)
+        flags = [C.boolc(inpl.get(p_, False)) for p_ in sc.params]
+        if expected:
+            hw = HAND_WRITTEN.get((name, tuple(sorted(inpl)), ci))
+        else:
+            hw = HAND_WRITTEN_NEG.get(name)
+        hw_l = "None" if hw is None else f"(Some ({hw[0]}, [" + "; ".join(hw[1]) + "]))"
+        cases.append(f"({cid}%nat, [" + "; ".join(flags) + f"], {C.boolc(expected)}, {hw_l}, {lit})")
+        names.append(dict(function=name, inplace=sorted(inpl), options={k_: repr(v_) for k_, v_ in cfg.items()}, expected_accepted=expected, paths=np_, sweeps=sweeps,
+                          hand_written=hw[0] if hw else None))
+    return "\n".join(defs), cases, names, skipped, ex
+
+
 # ============================================================================ running one configuration
 QUICK_VARIANTS = ["fresh", "transposed", "sliced"]
 HEAVY = {"nn_parafac_hals_init_exact_nnmodes"}      # > 1 s CPU per call (exact HALS: 50000 inner iterations): one kind in the quick tier
@@ -1052,6 +2079,27 @@ def run(chk):
                        "arguments; distinct key = (configuration, kind, dtype); non-trivial = at least one heap object reachable from the arguments")
     for b in broken:
         chk.broken.append({"what": "correspondence corr:C15 shard not evaluated", "detail": b})
+    # static correspondence: aliasing skeletons extracted from the source of VERIF_REPO, judged by the proved analysis
+    try:
+        t_st = time.time()
+        sdefs, scases, snames, sskipped, sex = static_cases(C.REPO, 6000 if chk.tier == "quick" else STATIC_CAP)
+        sfail, sn, sbroken = C.run_case_shards("C15", HEADER_STATIC + sdefs, "scase", scases, shard=4, timeout=600, tag="static")
+        chk.cov["static_skeletons_extracted_and_analysed"] = sn
+        chk.cov["static_skipped"] = [f"{a} option set {b}: {c}" for a, b, c in sskipped]
+        chk.cov["static_unresolved_constructs"] = dict(__import__("collections").Counter(sex.unresolved))
+        chk.count(key=("static",), nontrivial=True, n=sn)
+        chk.notes.append(f"static extraction + analysis: {sn} skeletons in {time.time() - t_st:.1f}s, {len(sskipped)} skipped (too many paths)")
+        for n_ in snames:
+            chk.hist("static: paths per extracted skeleton (log10)", len(str(n_["paths"])) - 1)
+        for b in sbroken:
+            chk.broken.append({"what": "correspondence corr:C15-static shard not evaluated", "detail": b})
+        for i in sorted(sfail):
+            chk.disagreement("corr:C15-static (aliasing skeleton extracted from the source: verdict of the proved analysis psafe_with differs from the expected one "
+                             "/ from the hand-written skeleton)", snames[i])
+        if snames:
+            chk.sample({"static": snames[0], "extracted": scases[0][:400]})
+    except Exception as e:      # the extractor is machinery: its crash is never a verdict about TensorLy
+        chk.broken.append({"what": "corr:C15-static extraction failed", "detail": f"{type(e).__name__}: {e}"[:500]})
     for i in sorted(failing):
         name, variant, dtype, seed, outcome, changed = meta[i]
         chk.disagreement("corr:C15 (skeleton footprint of Model/Effects.v vs observed mutation footprint)",
